@@ -10,11 +10,13 @@ use std::sync::atomic::{AtomicBool, AtomicUsize, Ordering};
 use std::sync::Barrier;
 
 use kestrel_crypto::{PayloadKey, PrivateKey};
+use zeroize::Zeroize;
 
 static ARMED: AtomicBool = AtomicBool::new(false);
 static LEAKED_BLOCKS: AtomicUsize = AtomicUsize::new(0);
 static FREES_SEEN: AtomicUsize = AtomicUsize::new(0);
 static WATCHED_FREES: AtomicUsize = AtomicUsize::new(0);
+static THREAD_INLINE_LEAKS: AtomicUsize = AtomicUsize::new(0);
 static INLINE_CHECKED: AtomicUsize = AtomicUsize::new(0);
 static mut SECRET: [u8; 32] = [0; 32];
 
@@ -96,8 +98,14 @@ fn splitmix(x: &mut u64) -> u64 {
 }
 
 /// drop `owners` values (an original and its clones, clones of clones) on `owners` threads at once
-fn round<T: Send + Clone + Keyed>(make: &dyn Fn() -> T, owners: usize, chain: bool, what: &str, seed: u64) -> Result<(), String> {
+fn round<T: Send + Sync + Clone + Keyed + Zeroize>(make: &dyn Fn() -> T, owners: usize, chain: bool, actions: [u8; 3], what: &str, seed: u64) -> Result<(), String> {
     let first = make();
+    // the secret to look for is whatever the container holds (generated keys included)
+    let sec = unsafe { std::ptr::read_volatile(first.secret_addr() as *const [u8; 32]) };
+    if sec.windows(8).any(|w| w.iter().all(|b| *b == 0)) {
+        return Ok(()); // a secret with 8 zero bytes in a row cannot be told from an erased one
+    }
+    unsafe { *std::ptr::addr_of_mut!(SECRET) = sec };
     let mut vals: Vec<T> = Vec::with_capacity(owners);
     for i in 1..owners {
         let c = if chain && i > 1 { vals[i - 2].clone() } else { first.clone() };
@@ -116,18 +124,49 @@ fn round<T: Send + Clone + Keyed>(make: &dyn Fn() -> T, owners: usize, chain: bo
     let gate = Barrier::new(owners);
     ARMED.store(true, Ordering::SeqCst);
     std::thread::scope(|s| {
-        for slot in slots.iter() {
+        for (i, slot) in slots.iter().enumerate() {
             let gate = &gate;
+            let action = actions[i % 3];
             s.spawn(move || {
                 gate.wait();
-                unsafe { ManuallyDrop::drop(&mut *slot.0.get()) };
+                let me = unsafe { &mut *slot.0.get() };
+                match action {
+                    // explicit zeroize() first, then the drop
+                    1 => {
+                        me.zeroize();
+                        unsafe { ManuallyDrop::drop(me) };
+                    }
+                    // a further clone made while the other owners are going away; both dropped here
+                    2 => {
+                        let mut c = Box::new(ManuallyDrop::new((**me).clone()));
+                        let a = c.secret_addr();
+                        let lo = &*c as *const ManuallyDrop<T> as usize;
+                        let inline = lo <= a && a + 32 <= lo + std::mem::size_of::<T>();
+                        if !inline && !WATCH.iter().any(|w| w.load(Ordering::SeqCst) == a) {
+                            for w in WATCH.iter() {
+                                if w.compare_exchange(0, a, Ordering::SeqCst, Ordering::SeqCst).is_ok() {
+                                    break;
+                                }
+                            }
+                        }
+                        unsafe { ManuallyDrop::drop(me) };
+                        unsafe { ManuallyDrop::drop(&mut *c) };
+                        if inline {
+                            INLINE_CHECKED.fetch_add(1, Ordering::SeqCst);
+                            if holds_secret(a) {
+                                THREAD_INLINE_LEAKS.fetch_add(1, Ordering::SeqCst);
+                            }
+                        }
+                    }
+                    _ => unsafe { ManuallyDrop::drop(me) },
+                }
             });
         }
     });
     ARMED.store(false, Ordering::SeqCst);
     let leaked = LEAKED_BLOCKS.swap(0, Ordering::SeqCst);
     // secrets kept inline are not in a released block: look at them where they are, inside the dropped containers
-    let mut in_container = 0;
+    let mut in_container = THREAD_INLINE_LEAKS.swap(0, Ordering::SeqCst);
     for w in WATCH.iter() {
         let a = w.swap(0, Ordering::SeqCst);
         let inline = slots.iter().any(|s| {
@@ -143,7 +182,7 @@ fn round<T: Send + Clone + Keyed>(make: &dyn Fn() -> T, owners: usize, chain: bo
     }
     if leaked > 0 || in_container > 0 {
         return Err(format!(
-            "{what}: {owners} owners dropped on {owners} threads (chain={chain}, seed={seed}): heap blocks released with key bytes in them: {leaked}; dropped containers still holding key bytes: {in_container}"
+            "{what}: {owners} owners dropped on {owners} threads (chain={chain}, actions={actions:?}, seed={seed}): heap blocks released with key bytes in them: {leaked}; dropped containers still holding key bytes: {in_container}"
         ));
     }
     Ok(())
@@ -169,9 +208,13 @@ fn main() {
     for r in 0..rounds {
         let owners = 2 + (splitmix(&mut st) % 2) as usize;
         let chain = splitmix(&mut st) % 2 == 0;
-        let res = match r % 2 {
-            0 => round(&|| PayloadKey::new(&secret), owners, chain, "PayloadKey::new", seed),
-            _ => round(&|| PrivateKey::try_from(&secret[..]).unwrap(), owners, chain, "PrivateKey::try_from", seed),
+        // what each thread does with its owner: 0 drop, 1 zeroize() then drop, 2 clone, drop both
+        let a = splitmix(&mut st);
+        let actions = if r < 2 { [0, 0, 0] } else { [(a % 3) as u8, ((a >> 8) % 3) as u8, ((a >> 16) % 3) as u8] };
+        let res = match r % 3 {
+            0 => round(&|| PayloadKey::new(&secret), owners, chain, actions, "PayloadKey::new", seed),
+            1 => round(&|| PrivateKey::try_from(&secret[..]).unwrap(), owners, chain, actions, "PrivateKey::try_from", seed),
+            _ => round(&|| PrivateKey::generate(), owners, chain, actions, "PrivateKey::generate", seed),
         };
         n += 1;
         if let Err(e) = res {
